@@ -2,6 +2,9 @@
 
 #include "psc/error.h"
 #include "nodes/eval/stringcat.h"
+#ifdef PSEUDOENGINE2_VERIF
+#include "verif.h"
+#endif
 
 std::unique_ptr<NodeResult> StringConcatenationNode::evaluate(PSC::Context &ctx) {
     auto leftRes = left.evaluate(ctx);
@@ -14,6 +17,9 @@ std::unique_ptr<NodeResult> StringConcatenationNode::evaluate(PSC::Context &ctx)
     auto leftStr = static_cast<const PSC::Primitive*>(leftRes->data.get())->toString();
     auto rightStr = static_cast<const PSC::Primitive*>(rightRes->data.get())->toString();
 
+#ifdef PSEUDOENGINE2_VERIF
+    PE2Verif::checkStringLength(leftStr->value.size() + rightStr->value.size(), token, ctx);
+#endif
     auto res = (*leftStr) & (*rightStr);
 
     return std::make_unique<NodeResult>(std::move(res), PSC::DataType::STRING);
